@@ -3,7 +3,8 @@
    All are for every input file [d] (any list of bytes) and every P1-time decoder [p1]. *)
 From Coq Require Import NArith List Bool.
 From FEC Require Import Generated.FEConsts Generated.FileIndexConsts Base.Bytes Base.Crc32 Base.Scan Base.FEFormat
-  Models.FileScanM Models.FileIndexIOM Models.ExtractLogM Proofs.FileScanP Proofs.ExtractLogP.
+  Models.FastIndexerM Proofs.FastIndexerSpecP Proofs.FastIndexerLegacyP
+  Models.FileScanM Models.FileIndexIOM Models.ExtractLogM Models.SystemLinkM Proofs.FileScanP Proofs.ExtractLogP Proofs.SystemLinkP.
 Import ListNotations.
 
 (* The output file is exactly the concatenation, in order, of the raw bytes of the messages a sequential scan of
@@ -62,6 +63,40 @@ Print Assumptions C18_extract_refines_spec.
 Theorem C18_read_fresh_is_scan : forall p1 d, read_all d (index_offsets (fresh p1 d)) = file_frames d.
 Proof. exact read_fresh_is_scan. Qed.
 Print Assumptions C18_read_fresh_is_scan.
+
+(* ---- link to C08: the index the extraction starts from IS the fast indexer's output --------------------------- *)
+(* C08's end-of-file-aware SPEC scan and the scan used here are the same function on every file. *)
+Theorem C18_spec_scans_agree : forall file, fi_spec_frames file = file_frames file.
+Proof. exact spec_frames_agree. Qed.
+Print Assumptions C18_spec_scans_agree.
+
+(* [extract_fi READ MAX ptime W d] is the extraction with the index fi_generate READ MAX fi_cur ptime d W really returns
+   (model of fast_generate_index with W worker processes, Models/FastIndexerM.v).  Under C08's precondition (every valid
+   candidate of the file is at most MAX bytes; READ even >= 2, 24 <= MAX <= READ - the generated constants are an instance)
+   and for every worker count: it never raises; output and count are those of C08's SPEC frames; and if the output again
+   meets the precondition, extracting it (any worker count) reproduces the result, and the written .p1i is the saved form
+   of the fast indexer's index of the output. *)
+Theorem C18_extract_via_fast_index : forall READ MAX : N,
+  (2 <= READ)%N -> (READ mod 2 = 0)%N -> (24 <= MAX)%N -> (MAX <= READ)%N ->
+  forall (ptime : N -> N -> list N -> option (N * N)) W d, (1 <= W)%N -> fi_small_msgs MAX d ->
+  exists r, extract_fi READ MAX ptime W d = Some r /\
+    xr_output r = match fi_spec_frames d with [] => None | _ => Some (concat (map snd (fi_spec_frames d))) end /\
+    xr_count r = N.of_nat (length (fi_spec_frames d)) /\
+    (forall out, xr_output r = Some out -> fi_small_msgs MAX out -> forall W', (1 <= W')%N ->
+       extract_fi READ MAX ptime W' out = Some r /\
+       exists es, fi_generate READ MAX fi_cur ptime out W' = FOk es /\
+                  xr_index r = save (map fi_strip es) (N.of_nat (length out))).
+Proof. exact extract_via_fast_index_full. Qed.
+Print Assumptions C18_extract_via_fast_index.
+
+(* instance: C08's block-boundary witness file with READ = 64, MAX = 48, three workers *)
+Example C18_via_fast_index_nonvacuous :
+  fi_small_msgs 48 wit_overlap /\
+  exists r, extract_fi 64 48 no_time 3 wit_overlap = Some r /\ xr_count r = 2%N /\
+            option_map (@length N) (xr_output r) = Some (length (concat (map snd (fi_spec_frames wit_overlap)))).
+Proof.
+  split; [exact wit_overlap_small|]. eexists. split; [vm_compute; reflexivity|]. split; vm_compute; reflexivity.
+Qed.
 
 (* Non-vacuity: a mixed file (junk, a false sync, two messages, one of them with a P1 stamp that does not fit
    the u4 column) meets the hypotheses above, and the results are the expected ones. *)
